@@ -31,7 +31,7 @@ ANY_NODES = {"gget", "gex", "lget"}
 
 def plan(tier, seed):
     n = 16 if tier == "quick" else 64
-    return [{"seed": seed, "shard": i, "nshards": n, "tier": tier, "recipes": 150 if tier == "quick" else 1200,
+    return [{"seed": seed, "shard": i, "nshards": n, "tier": tier, "recipes": 300 if tier == "quick" else 1500,
              "labels": 10 if tier == "quick" else 80, "routers": 4 if tier == "quick" else 20, "abi": 25 if tier == "quick" else 200} for i in range(n)]
 
 
